@@ -295,10 +295,7 @@ fn check_match(input: &MatchIn, case: &mut Case) -> Result<(), Fail> {
 /// field of that entry, and matching follows it
 fn check_parsed_types(input: &super::c01::Mutated, case: &mut Case) -> Result<(), Fail> {
     let bytes = super::c01::render_mutated(input);
-    let Ok(p) = parse(&bytes)? else {
-        case.class("rejected");
-        return Ok(());
-    };
+    let Some(p) = parse_if_accepted(&bytes, case) else { return Ok(()) };
     let Ok(w) = walk(&bytes) else {
         case.class("walker-fails:no-claim");
         return Ok(());
@@ -308,6 +305,12 @@ fn check_parsed_types(input: &super::c01::Mutated, case: &mut Case) -> Result<()
     for (sec, recs) in [(0usize, &p.answers), (1, &p.name_servers), (2, &p.additional_records)] {
         let mut wire: Vec<&WRecord> = w.section(sec).collect();
         if sec == 2 && lifted_opt {
+            if wire.iter().filter(|r| r.rtype == 41).count() >= 2 {
+                // which of several OPT-typed entries a reader shows as the EDNS data is its own business
+                // (C09 speaks of one): the entries of this section cannot be aligned without guessing
+                case.class("several-opt-entries:no-claim-for-the-additional-section");
+                continue;
+            }
             if let Some(i) = wire.iter().position(|r| r.rtype == 41) {
                 wire.remove(i);
                 lifted_opt = false;
